@@ -42,10 +42,31 @@ def _caller_data(t):
     """the caller's arrays, or what scikit-learn validation returns for them (which may be the same array)"""
     if t in (("var", "X"), ("var", "y")):
         return True
+    if may_alias(t, {("var", "X"), ("var", "y")}):
+        return True
     if isinstance(t, tuple) and t[:1] == ("callres",) and t[2] in ("check_array", "validate_data", "np.asarray", "np.array"):
         return any(_caller_data(a) for a in t[3][:2]) and dict(t[4]).get("copy") != ("const", True)
     if isinstance(t, tuple) and t[:1] == ("item",):
         return False
+    return False
+
+
+MAY_ALIAS = ("np.asarray", "np.asanyarray", "np.ascontiguousarray", "np.asfortranarray", "np.require", "np.array", "np.atleast_1d", "np.atleast_2d",
+             "np.squeeze", "np.ravel", "np.reshape", "np.transpose", "check_array", "validate_data", "as_float_array")
+
+
+def may_alias(t, roots):
+    """t may be the same memory as one of the root terms: the root itself, a NumPy conversion / view of it (asarray, ascontiguousarray,
+    reshape, ravel, ... return their argument or a view when no copy is needed), or a view method / attribute of it"""
+    if t in roots:
+        return True
+    if isinstance(t, tuple) and t[:1] == ("callres",):
+        if t[2] in MAY_ALIAS and t[3] and dict(t[4]).get("copy") != ("const", True):
+            return may_alias(t[3][1] if t[2] == "validate_data" and len(t[3]) > 1 else t[3][0], roots)
+        if t[2].endswith((".reshape", ".ravel", ".view", ".squeeze", ".transpose", ".swapaxes")) :
+            return False        # receiver not recorded in the term: handled through the call event
+    if isinstance(t, tuple) and t[:1] == ("attr",) and t[2] in ("T", "real", "flat"):
+        return may_alias(t[1], roots)
     return False
 
 
